@@ -302,6 +302,18 @@ def decoration_table() -> list[dict]:
             ns,
         )
 
+    def mixed(src: str):
+        def make() -> None:
+            ns: dict = {}
+            exec("from asphalt.core import inject, resource\n@inject\n" + src + "\n", ns)
+
+        return make
+
+    expect_typeerror("uncalled_mixed", mixed("async def f(a: int = resource(), b: int = resource): pass"))
+    expect_typeerror("uncalled_mixed_first", mixed("def f(b: int = resource, *, a: int = resource('x')): pass"))
+    expect_typeerror("unannotated_mixed", mixed("async def f(a: int = resource(), b=resource('y')): pass"))
+    expect_typeerror("posonly_mixed", mixed("def f(p: int = resource(), /, a: int = resource()): pass"))
+    expect_typeerror("uncalled_mixed_kwonly", mixed("async def f(x, a: str = resource('n'), *, b: int = resource): pass"))
     expect_typeerror("posonly", posonly)
     expect_typeerror("unannotated", unannotated)
     expect_typeerror("uncalled", uncalled)
